@@ -483,7 +483,7 @@ def _one_dataset(c):
                         shallow_water as sw, sigma_coordinates as sc, layer_coordinates as lc,
                         vertical_interpolation as vi)
   out = []
-  brief = {k: c[k] for k in ('grid', 'K', 'eq', 'rep', 'ntr', 'sample', 'time')}
+  brief = {k: c[k] for k in ('grid', 'K', 'eq', 'rep', 'ntr', 'sample', 'time', 'real')}
 
   def bad(sig, detail):
     out.append({'case': brief, 'sig': sig, 'detail': detail})
@@ -520,7 +520,8 @@ def _one_dataset(c):
   ambiguous = any(v['ambiguous'] for v in c['vars'])
   tag = 'ambiguous' if ambiguous else 'write'
   try:
-    ds = xu.data_to_xarray(data, coords=coords, times=times, sample_ids=samples, attrs={'note': 1.5})
+    extra = {'additional_coords': {'realization': np.array([0])}} if c.get('real') else {}
+    ds = xu.data_to_xarray(data, coords=coords, times=times, sample_ids=samples, attrs={'note': 1.5}, **extra)
   except Exception as ex:   # pylint: disable=broad-except
     shapes = {v['name']: v['shape'] for v in c['vars']}
     bad(f'dataset:{tag}:exception:{type(ex).__name__}',
